@@ -1,7 +1,7 @@
 
 
 //@@ octo-squirrel/src/protocol/address.rs:9-13  enum Address  sha=d701f69e752e0952
-#[derive(PartialEq, Eq, Clone)]
+#[derive(PartialEq, Eq)]
 pub enum Address {
     Domain(String, u16),
     Socket(SocketAddr),
